@@ -13,9 +13,11 @@ HIER_BOUNDS = {'libraries': '2-4 (Verilog: hdi_primitives + work)', 'leaf_defini
                'ports_per_definition': '0-3 of width 1-4, base 0-3 (Verilog: base 0, downto)', 'cables_per_definition': '0-5 of width 1-4, base 0-7 (+ port cables and \\<const0>/\\<const1> in Verilog)',
                'instances_per_definition': '0-4 (+ the ones added to give Verilog designs a single root)', 'hierarchy_depth': 'up to 6',
                'connection_probability_per_pin': 0.75, 'names': '25% from an adversarial alphabet (case-only siblings, non-alphabetic first character, brackets, dots, slashes, spaces, escaped identifiers)',
-               'edif_properties': '0-3 per instance: string / integer / boolean, names that need a rename', 'verilog_data': 'instance parameters and attributes, module parameters and attributes, wire attributes, 0-2 assigns per module'}
+               'edif_properties': '0-3 per instance: string / integer / boolean, names that need a rename', 'verilog_data': 'instance parameters and attributes, module parameters and attributes, wire attributes, 0-2 assigns per module',
+               'edif_same_cell_name_in_two_libraries': '20% of the designs (half of them the top cell, 60% of those in an unreferenced library of its own, 30% as a case variant)',
+               'verilog_permuted_or_repeated_inner_bits': '25% of the designs that instantiate a port of >= 4 bits: that port fed from one cable, end bits in slice position'}
 FLAT_BOUNDS = {'top_ports': '1-4 of width 1-3', 'black_box_models': '1-3 with 1-4 ports of width 1-3, 70% declared', 'nets': '3-8 scalar + 0-2 buses of width 2-4 + port nets',
-               'instances': '2-7 (.subckt 5 : .gate 1 : .names 3 : .latch 2), 70% with .cname, 0-2 .attr, 0-2 .param', 'conn_statements': '0-2', 'names': '30% from an adversarial alphabet ($ . : ~ ^ \\\\)'}
+               'instances': '2-7 (.subckt 5 : .gate 1 : .names 3 : .latch 2), 70% with .cname, 0-2 .attr, 0-2 .param', 'conn_statements': '0-2', 'wide_names': '12% of the designs get one extra .names with 11-13 inputs', 'names': '30% from an adversarial alphabet ($ . : ~ ^ \\\\)'}
 
 
 def bundled(kind, max_zip_bytes):
